@@ -4,6 +4,7 @@
 From Coq Require Import List NArith Bool Permutation String.
 From Verif Require Import Base.Hex Base.Json Model.MergePatch Proofs.C36.
 Import ListNotations.
+Local Open Scope string_scope.
 
 (* "yields the configuration RFC 7396 defines": for ALL targets and patches (any nesting, nulls,
    arrays, scalars, even duplicate member names) the code's algorithm equals the RFC's
@@ -57,6 +58,21 @@ Theorem C36_spec_recursion : forall t ps k v, NoDup (keys ps) ->
 Proof. exact present_member_recurses. Qed.
 Print Assumptions C36_spec_recursion.
 
+(* member names are matched exactly (no case folding, no Unicode equivalence): a patch member
+   named k2 leaves every other name k1 alone *)
+Theorem C36_member_names_exact : forall t k1 k2 v, k1 <> k2 ->
+  obj_get k1 (members_of (impl_merge t (JObj [(k2, v)]))) = obj_get k1 (members_of t).
+Proof. exact member_names_exact. Qed.
+Print Assumptions C36_member_names_exact.
+
+Example C36_bind_vs_Bind :
+  impl_merge (o [("bind", s "0.0.0.0:25565")]) (o [("Bind", JNull)]) = o [("bind", s "0.0.0.0:25565")] /\
+  impl_merge (o [("bind", s "0.0.0.0:25565")]) (o [("Bind", s "x")])
+  = o [("bind", s "0.0.0.0:25565"); ("Bind", s "x")] /\
+  impl_merge (o [("a", o [("x", n "1")])]) (o [("A", o [("y", n "2")])])
+  = o [("a", o [("x", n "1")]); ("A", o [("y", n "2")])].
+Proof. exact bind_vs_Bind. Qed.
+
 (* a member named by the patch is never null in the result *)
 Theorem C36_no_null_members_from_patch : forall t ps k v, NoDup (keys ps) ->
   obj_get k ps = Some v ->
@@ -97,7 +113,6 @@ Print Assumptions C36_json_eqb_decides_map_equality.
 
 (* non-vacuity: one patch that deletes, recurses, adds; premises hold; order matters for the
    list but not for the map *)
-Local Open Scope string_scope.
 Example C36_nonvacuous :
   let t := o [("a", o [("x", n "1"); ("y", n "2")]); ("b", s "keep"); ("c", a [JNull])] in
   let ps := [(tx "a", o [("x", JNull); ("z", n "3")]); (tx "c", JNull); (tx "d", o [("q", JNull)]); (tx "e", n "5")] in
